@@ -82,7 +82,8 @@ class FnExprs:
                     pl = s['pl']
                     if not pl['p']:
                         self.defs.setdefault(pl['l'], []).append(('rv', s['rv'], bi, si))
-                    else:
+                    elif pl['p'][0] != '*':
+                        # (a write through a pointer does not redefine the pointer itself)
                         self.partial.add(pl['l'])
                 elif s['k'] == 'setdiscr':
                     self.partial.add(s['pl']['l'])
@@ -91,7 +92,7 @@ class FnExprs:
                 d = t['d']
                 if not d['p']:
                     self.defs.setdefault(d['l'], []).append(('call', t, bi, None))
-                else:
+                elif d['p'][0] != '*':
                     self.partial.add(d['l'])
             elif t['k'] == 'yield':
                 pass
@@ -132,6 +133,8 @@ class FnExprs:
             elif el == '?':
                 continue
             elif 'f' in el:
+                if el.get('bx'):
+                    continue  # Box/Unique/NonNull internals of an elaborated box deref
                 nm = el.get('n')
                 if nm is None:
                     nm = self.cap_names.get(el['f']) if (e[0] == 'arg' and e[1] == 1 and self.fn['kind'] in ('closure', 'coroutine')) else None
@@ -259,10 +262,17 @@ def _qsite(site, ctx):
     return ('q', ctx, site)
 
 
+_TRANSPARENT_TAIL = ('iter', 'iter_mut', 'into_iter', 'drain', 'values', 'values_mut', 'as_slice', 'as_mut_slice', 'keys')
+
+
+def is_transparent(name):
+    return name in TRANSPARENT or name.rsplit('::', 1)[-1] in _TRANSPARENT_TAIL
+
+
 def strip(e):
     """see through transparent calls (deref, as_mut, Pin...), pin-project and variants"""
     while True:
-        if e[0] == 'call' and e[1] in TRANSPARENT and e[2]:
+        if e[0] == 'call' and is_transparent(e[1]) and e[2]:
             e = e[2][0]
             continue
         return e
@@ -291,7 +301,7 @@ def render(e, depth=0):
     if k == 'discr':
         return 'discr(' + render(e[1], depth + 1) + ')'
     if k == 'call':
-        if e[1] in TRANSPARENT and e[2]:
+        if is_transparent(e[1]) and e[2]:
             return render(e[2][0], depth + 1)
         return short(e[1]) + '(' + ', '.join(render(a, depth + 1) for a in e[2]) + ')'
     if k == 'agg':
